@@ -92,7 +92,7 @@ def run_concrun(bindir, scratch, name, cases, dfs_max=20000, extra_args=()):
         # one goroutine runs at a time under the cooperative scheduler: a single P makes every
         # hand-over a goroutine switch instead of a futex round trip between OS threads
         r = subprocess.run([os.path.join(bindir, "concrun"), "-dfs-max", str(dfs_max)] + list(extra_args), stdin=fin,
-                           stdout=subprocess.PIPE, stderr=subprocess.PIPE, text=True, env=dict(os.environ, GOMAXPROCS="1"))
+                           stdout=subprocess.PIPE, stderr=subprocess.PIPE, text=True, errors="replace", env=dict(os.environ, GOMAXPROCS="1"))
     runs, dfs = parse_runs(r.stdout)
     return runs, dfs, (r.returncode, r.stderr[-2000:])
 
